@@ -784,6 +784,10 @@ Proof. reflexivity. Qed.
 (* a repeated Close of a stale handle: with the identity test of conn.Close nothing happens *)
 Lemma close_checks_ok : close_checks_identity = true.
 Proof. reflexivity. Qed.
+Lemma deadlines_ok : deadlines_are_stubs = true.
+Proof. reflexivity. Qed.
+Lemma deadline_noop id k s : fst (deadline_step true id k s) = s.
+Proof. unfold deadline_step. destruct (find_conn id (m_conns s)); reflexivity. Qed.
 Lemma stale_close_noop id s : fst (stale_close_step true id s) = s.
 Proof. unfold stale_close_step. destruct (find_conn id (m_conns s)); [destruct (0 <? c_gen c)|]; reflexivity. Qed.
 
@@ -796,6 +800,8 @@ Proof.
   - eapply Inv_readb; eauto.
   - rewrite open_closes_ok in Hstep. eapply Inv_open; eauto.
   - rewrite close_checks_ok in Hstep. pose proof (stale_close_noop id s) as Hn. rewrite Hstep in Hn. cbn [fst] in Hn. subst s'.
+    apply Inv_trace; [intros i; reflexivity|exact HI].
+  - rewrite deadlines_ok in Hstep. pose proof (deadline_noop id k s) as Hn. rewrite Hstep in Hn. cbn [fst] in Hn. subst s'.
     apply Inv_trace; [intros i; reflexivity|exact HI].
   - eapply Inv_write; eauto.
   - inversion Hstep; subst. apply Inv_trace; [intros i; reflexivity|]. now apply Inv_do_close.
@@ -950,6 +956,7 @@ Proof.
     intros e' _ He. apply H2. destruct (snd (read_step id pick s)); try discriminate; exact He.
   - destruct (open_step_fields open_closes_on_closed id s) as [-> _]. split; [exact H|discriminate].
   - rewrite close_checks_ok, stale_close_noop. split; [exact H|discriminate].
+  - rewrite deadlines_ok, deadline_noop. split; [exact H|discriminate].
   - split; [|discriminate]. unfold write_step, write_step_pf.
     destruct (find_conn id (m_conns s)); [|exact H]. destruct (c_closed c); [exact H|].
     destruct (m_closed s || m_tx_broken s); [exact H|]. destruct cut; [|exact H].
@@ -991,6 +998,7 @@ Proof.
     destruct (c_queue c); [destruct (c_closed c)|destruct (c_closed c && negb pick)]; destruct (m_err s); exact H.
   - destruct (open_step_fields open_closes_on_closed id s) as [_ [-> _]]. exact H.
   - rewrite close_checks_ok, stale_close_noop. exact H.
+  - rewrite deadlines_ok, deadline_noop. exact H.
   - unfold write_step, write_step_pf. destruct (find_conn id (m_conns s)); [|exact H]. destruct (c_closed c); [exact H|].
     rewrite H. exact H.
   - unfold do_close. now rewrite H.
@@ -1077,6 +1085,7 @@ Proof.
   - rewrite read_buf_fst, received_readb. apply drain_read.
   - apply drain_open. congruence.
   - rewrite close_checks_ok, stale_close_noop. reflexivity.
+  - rewrite deadlines_ok, deadline_noop. reflexivity.
   - unfold write_step, write_step_pf. destruct (find_conn id0 (m_conns s)); [|reflexivity]. destruct (c_closed c); [reflexivity|].
     rewrite H. reflexivity.
   - unfold do_close. rewrite H. reflexivity.
@@ -1190,6 +1199,8 @@ Proof.
   - destruct (open_step_fields open_closes_on_closed id s) as (_&_&H1&H2&_). rewrite Hstep in H1, H2.
     (eapply TxInv_same; [ | | |exact HI]; auto).
   - rewrite close_checks_ok in Hstep. pose proof (stale_close_noop id s) as Hn. rewrite Hstep in Hn. cbn [fst] in Hn. subst s'.
+    (eapply TxInv_same; [ | | |exact HI]; auto).
+  - rewrite deadlines_ok in Hstep. pose proof (deadline_noop id k s) as Hn. rewrite Hstep in Hn. cbn [fst] in Hn. subst s'.
     (eapply TxInv_same; [ | | |exact HI]; auto).
   - unfold write_step, write_step_pf in Hstep.
     destruct (find_conn id (m_conns s)); [|inversion Hstep; subst; (eapply TxInv_same; [ | | |exact HI]; auto)].
@@ -1543,6 +1554,7 @@ Proof.
   - rewrite read_buf_fst. destruct (tx_read id pick s) as [-> ->]. auto.
   - destruct (open_step_fields open_closes_on_closed id s) as (_&_&->&->&_). auto.
   - rewrite close_checks_ok, stale_close_noop. auto.
+  - rewrite deadlines_ok, deadline_noop. auto.
   - unfold write_step, write_step_pf. destruct (find_conn id (m_conns s)); [|auto]. destruct (c_closed c); [auto|].
     rewrite Hc. cbn [orb fst]. auto.
   - destruct (tx_do_close s) as [-> ->]. auto.
@@ -1560,6 +1572,7 @@ Proof.
   - rewrite read_buf_fst. apply tx_read.
   - destruct (open_step_fields open_closes_on_closed id s) as (_&_&->&_). reflexivity.
   - now rewrite close_checks_ok, stale_close_noop.
+  - now rewrite deadlines_ok, deadline_noop.
   - exfalso. eapply Hw. reflexivity.
   - apply tx_do_close.
   - reflexivity.
@@ -1638,4 +1651,52 @@ Theorem frame_sync_refuted :
   (* … while the machine of the theorems fails stop at that point *)
   let '(s', tr') := run_mp max_payload_size (init_mux [] 4 [1; 2]) evs in
   m_closed s' = true /\ m_err s' = Some EErr /\ map snd tr' = [RErr EErr; ROk; RErr EEOF] /\ m_tx s' = [0;0;0;1; 0;0;0;3].
+Proof. vm_compute. repeat split. Qed.
+
+(* ---------- deadlines on a logical connection ---------- *)
+Theorem deadline_is_noop mp id k s : fst (step_mp mp s (EvDeadline id k)) = s.
+Proof. cbn [step_mp]. rewrite deadlines_ok. apply deadline_noop. Qed.
+
+Definition not_deadline (e : event) : bool := match e with EvDeadline _ _ => false | _ => true end.
+
+(* a schedule with deadline operations anywhere and the same schedule without them: the same final state and,
+   call for call, the same results — on every connection *)
+Theorem deadlines_change_nothing mp : forall evs s,
+  fst (run_mp mp s evs) = fst (run_mp mp s (filter not_deadline evs)) /\
+  filter (fun eo => not_deadline (fst eo)) (snd (run_mp mp s evs)) = snd (run_mp mp s (filter not_deadline evs)).
+Proof.
+  induction evs as [|e r IH]; intros s; [split; reflexivity|].
+  cbn [run_mp filter]. destruct (not_deadline e) eqn:Ed.
+  - cbn [run_mp]. destruct (step_mp mp s e) as [s1 o]. specialize (IH s1).
+    destruct (run_mp mp s1 r) as [s2 tr2]. destruct (run_mp mp s1 (filter not_deadline r)) as [s3 tr3].
+    cbn [fst snd filter] in *. rewrite Ed. destruct IH as [-> ->]. split; reflexivity.
+  - destruct e; try discriminate. pose proof (deadline_is_noop mp id k s) as Hn.
+    destruct (step_mp mp s (EvDeadline id k)) as [s1 o]. cbn [fst] in Hn. subst s1. specialize (IH s).
+    destruct (run_mp mp s r) as [s2 tr2]. cbn [fst snd filter not_deadline] in *. exact IH.
+Qed.
+
+Lemma received_strip id tr : received id (filter (fun eo => not_deadline (fst eo)) tr) = received id tr.
+Proof.
+  induction tr as [|[e o] r IH]; [reflexivity|]. cbn [filter fst]. destruct (not_deadline e) eqn:Ed.
+  - change ((e, o) :: r) with ([(e, o)] ++ r). change ((e, o) :: filter (fun eo => not_deadline (fst eo)) r) with ([(e, o)] ++ filter (fun eo => not_deadline (fst eo)) r).
+    now rewrite !received_app, IH.
+  - destruct e; try discriminate. change ((EvDeadline id0 k, o) :: r) with ([(EvDeadline id0 k, o)] ++ r).
+    rewrite received_app. cbn. exact IH.
+Qed.
+
+Theorem deadlines_delivery_unaffected mp evs s id :
+  received id (snd (run_mp mp s evs)) = received id (snd (run_mp mp s (filter not_deadline evs))) /\
+  queue_in id (fst (run_mp mp s evs)) = queue_in id (fst (run_mp mp s (filter not_deadline evs))).
+Proof.
+  destruct (deadlines_change_nothing mp evs s) as [H1 H2]. rewrite <- H2, received_strip, H1. split; reflexivity.
+Qed.
+
+(* the variant that forwards the deadline to the shared trunk: a read deadline armed on connection 1 expires, the
+   reader fails, the Mux closes, and the frame that the peer wrote to connection 2 is never delivered *)
+Theorem deadline_forwarded_refuted :
+  let evs := [EvDeadline 1 DRead; EvReader; EvRead 2 true] in
+  let '(s, tr) := run_var4 true true true false max_payload_size (init_mux (trunk [(2, [7; 8])]) 4 [1; 2]) evs in
+  m_closed s = true /\ map snd tr = [ROk; ROk; RErr EErr] /\
+  let '(s', tr') := run (init_mux (trunk [(2, [7; 8])]) 4 [1; 2]) evs in
+  m_closed s' = false /\ map snd tr' = [ROk; ROk; RData [7; 8]].
 Proof. vm_compute. repeat split. Qed.
